@@ -156,7 +156,7 @@ def require_nonvacuous(stats, parts):
 
 MUTANTS = {
     'a': ['ge_ignores_impl', 'newer_or_equal', 'lt_is_le'],
-    'b': ['diff_substring', 'diff_absent_ok', 'diff_latest_only', 'values_ignored', 'asp_gets_targets', 'owner_by_task', 'current_skips_values'],
+    'b': ['diff_substring', 'diff_absent_ok', 'diff_latest_only', 'diff_first_only', 'values_ignored', 'asp_gets_targets', 'owner_by_task', 'current_skips_values'],
     'h': ['versions_forget_first'],
 }
 
